@@ -309,6 +309,7 @@ def run_wildmsg(spec, res):
     wildcard's namespace constraint, whatever that is (a list, ##other, an empty list, notNamespace, notQName)."""
     xmlschema = env.activate_repo()
     sent = Sentinel(xmlschema, res)
+    run_assertions(res, xmlschema, sent)
     T = 'urn:vk:wm'
     cons10 = ['namespace="##any"', 'namespace="##other"', 'namespace="##local"', 'namespace="##targetNamespace"',
               'namespace="urn:x urn:y"', 'namespace=""', 'namespace="##local urn:x"']
@@ -341,6 +342,28 @@ def run_wildmsg(spec, res):
                         res.nontrivial.add(env.h8(('wildmsg', version, con, pc, shape, body)))
                         res.count('wildmsg:cases')
                         drive(sent, xmlschema, schema, lambda: text, case)
+
+
+def run_assertions(res, xmlschema, sent):
+    """XSD 1.1 assertions are evaluated by the XPath processor on a schema-annotated view of the element: malformed
+    xsi attributes on the element or below it reach that processor."""
+    T = 'urn:vk:as'
+    xsd = (f'<xs:schema xmlns:xs="{D.XS}" xmlns:t="{T}" targetNamespace="{T}" elementFormDefault="qualified">'
+           f'<xs:complexType name="P"><xs:sequence><xs:element name="a" type="xs:int"/><xs:element name="b" type="xs:int" minOccurs="0"/>'
+           f'</xs:sequence><xs:attribute name="k" type="xs:int"/><xs:assert test="t:a le 10 and (not(t:b) or t:a le t:b)"/></xs:complexType>'
+           f'<xs:complexType name="Q"><xs:complexContent><xs:extension base="t:P"><xs:assert test="@k"/></xs:extension></xs:complexContent></xs:complexType>'
+           f'<xs:element name="r"><xs:complexType><xs:sequence><xs:element name="p" type="t:P" maxOccurs="unbounded"/></xs:sequence>'
+           f'<xs:assert test="count(t:p) le 3"/></xs:complexType></xs:element></xs:schema>')
+    schema = xmlschema.XMLSchema11(xsd)
+    for where in ('r', 'p', 'a', 'b'):
+        for name, value in XSI_ATTRS + [('type', 't:Q'), ('type', 't:P')]:
+            at = {w: (f' xsi:{name}="{xml_escape(value)}"' if w == where else '') for w in 'rpab'}
+            text = (f'<t:r xmlns:t="{T}" xmlns:xsi="{D.XSI}" xmlns:xs="{D.XS}"{at["r"]}><t:p k="1"{at["p"]}><t:a{at["a"]}>1</t:a>'
+                    f'<t:b{at["b"]}>2</t:b></t:p><t:p><t:a>20</t:a></t:p></t:r>')
+            case = {'assertions': True, 'xsd': xsd, 'doc': text, 'where': where, 'value': f'{name}={value}'}
+            res.nontrivial.add(env.h8(('assertions', where, name, value)))
+            res.count('assertions:cases')
+            drive(sent, xmlschema, schema, lambda: text, case)
 
 
 def xml_escape(v):
@@ -626,6 +649,8 @@ def replay(case):
                 blob = bytes.fromhex(case['hex'])
                 drive(sent, xmlschema, C.schema_for(entry), lambda: blob, case)
                 break
+    elif case.get('assertions'):
+        drive(sent, xmlschema, xmlschema.XMLSchema11(case['xsd']), lambda: case['doc'], case)
     elif case.get('wildmsg'):
         cls = xmlschema.XMLSchema11 if case.get('version') == '1.1' else xmlschema.XMLSchema10
         drive(sent, xmlschema, cls(case['xsd']), lambda: case['doc'], case)
